@@ -51,7 +51,7 @@ def chars_jobs(ctx, invariants, ops, nontrivial, pairs_quick=4):
             n = 5 if ctx.quick else 7
         else:
             al = alphabet(ds, de, "aé")
-            n = 6 if ctx.quick else 8
+            n = 6 if ctx.quick else 7
             if len(al) >= 8 or (ctx.quick and (len(chosen) < 2 or (ds, de) != chosen[1])):
                 n -= 1
         ctx.job("chars[%s|%s]" % (ds, de),
@@ -94,7 +94,32 @@ def check_C07(ctx):
     junk_jobs(ctx, ["Inv_C07"], [{"op": "tokenize"}], multi_token)
 
 
+def tok_model_checking(ctx):
+    """Layer I tokenizer vs. the reference scan: bounded MC plus the product automaton (all string lengths)"""
+    q = ctx.quick
+    for (ds, de, al, n) in [("<", ">", "<>a é", 5 if q else 7), ("<!-- <", "> -->", "<!- >a", 6 if q else 8),
+                            ("aab", "bba", "abx", 7 if q else 10), ("%%", "%%", "%a ", 7 if q else 10)]:
+        ctx.mc("tok[%s|%s]" % (ds, de), "MC_Tok", {"DS": Chars(ds), "DE": Chars(de), "Alphabet": Chars(al), "N": n},
+               ["ImplRefines", "KmpIsRef"])
+    for (ds, de) in PAIRS:
+        al = "".join(dict.fromkeys(ds + de + "x"))
+        ctx.mc("prod[%s|%s]" % (ds, de), "Prod_Tok", {"DS": Chars(ds), "DE": Chars(de), "Alphabet": Chars(al)},
+               ["Agree"], view="View", workers=1)
+
+
+def witness_job(ctx, invariants):
+    """spec -> impl: one witness string per transition of each product automaton, replayed on the real tokenizer"""
+    gens = []
+    for (ds, de) in PAIRS:
+        al = "".join(dict.fromkeys(ds + de + "xé"))
+        gens.append({"base": "Prod_Tok", "raw_consts": True, "emit": "EmitWitness", "view": "View", "workers": 1,
+                     "consts": {"DS": Chars(ds), "DE": Chars(de), "Alphabet": Chars(al)}, "cfg": {"ds": ds, "de": de}})
+    ctx.job("product-witnesses", gens=gens, invariants=invariants, ops=[{"op": "tokenize"}], nontrivial=multi_token, conform=True)
+
+
 def check_C08(ctx):
+    tok_model_checking(ctx)
+    witness_job(ctx, ["Inv_C08"])
     chars_jobs(ctx, ["Inv_C08"], [{"op": "tokenize"}], has_tag_token)
     atoms_jobs(ctx, ["Inv_C08"], [{"op": "tokenize"}], has_tag_token)
     junk_jobs(ctx, ["Inv_C08"], [{"op": "tokenize"}], has_tag_token)
@@ -180,7 +205,7 @@ def block_jobs(ctx, invariants, ops, lite=False):
     d = 2 if (q and lite) else 0
     html = {"ds": "<!-- <", "de": "> -->"}
     if q:
-        gens = [lines_gen(6 - d, 2, 2, ["R", "P", "S", "U"], ws=(2,)),
+        gens = [lines_gen(5, 2, 2, ["R", "P", "S", "U"], ws=(2,)) if not lite else lines_gen(4, 2, 2, ["R", "P", "S", "U"], ws=(2,)),
                 lines_gen(7 - d, 1, 1, ["R"], base=0, ws=(1,)),
                 lines_gen(6 - d, 1, 1, ["R"], base=1, ws=(1,)),
                 lines_gen(7 - d, 1, 2, ["R"], base=0, blank=True),
@@ -192,9 +217,9 @@ def block_jobs(ctx, invariants, ops, lite=False):
         ctx.job("block", gens=gens, invariants=invariants, ops=ops, cfg={"ds": "<", "de": ">"}, nontrivial=has_ready)
         return
     sets = [
-        ("block-mixed", [lines_gen(7, 2, 3, ["R", "P", "S", "U"], ws=(2,))]),
-        ("block-one", [lines_gen(9, 1, 1, ["R"], base=0, ws=(1,)), lines_gen(9, 1, 1, ["R"], base=1, ws=(1,))]),
-        ("block-two", [lines_gen(10, 1, 2, ["R"], base=0, ws=()), lines_gen(9, 2, 2, ["R", "P"], base=1, ws=())]),
+        ("block-mixed", [lines_gen(8, 2, 3, ["R", "P", "S", "U"], ws=(2,))]),
+        ("block-one", [lines_gen(10, 1, 1, ["R"], base=0, ws=(1,)), lines_gen(9, 1, 1, ["R"], base=1, ws=(1,))]),
+        ("block-two", [lines_gen(11, 1, 2, ["R"], base=0, ws=()), lines_gen(10, 2, 2, ["R", "P"], base=1, ws=())]),
         ("block-tab-mb", [lines_gen(7, 2, 2, ["R", "P"], unit="\t", base=1, ws=(1,)),
                           lines_gen(7, 2, 2, ["T", "F"], unit="    ", base=0, suffix="é")]),
         ("block-sim", [lines_gen(14, 3, 5, ["R", "P", "S", "U", "T", "F"], ws=(2,), base=ctx.seed % 2, simulate=(20000, 14))]),
@@ -220,9 +245,9 @@ def unwrap_jobs(ctx, invariants, ops, lite=False):
         return
     sets = [
         ("unwrap-one", [lines_gen(8, 1, 1, ["Ru"], free=(0, 1, 2), blank=True), lines_gen(10, 1, 1, ["Ru"], free=(1,), blank=True)]),
-        ("unwrap-mixed", [lines_gen(8, 2, 2, ["Ru", "R", "P"], free=(1,), blank=False)]),
-        ("unwrap-nested", [lines_gen(12, 2, 2, ["Ru"], blank=False), lines_gen(11, 2, 2, ["Ru", "Pu"], base=1, blank=False),
-                           lines_gen(13, 3, 3, ["Ru"], blank=False)]),
+        ("unwrap-mixed", [lines_gen(9, 2, 2, ["Ru", "R", "P"], free=(1,), blank=False)]),
+        ("unwrap-nested", [lines_gen(13, 2, 2, ["Ru"], blank=False), lines_gen(11, 2, 2, ["Ru", "Pu"], base=1, blank=False),
+                           lines_gen(14, 3, 3, ["Ru"], blank=False)]),
         ("unwrap-tab", [lines_gen(8, 1, 1, ["Tu"], unit="\t", free=(0, 1, 2), blank=False, suffix="あ")]),
         ("unwrap-sim", [lines_gen(16, 3, 4, ["Ru", "R", "P", "Pu", "S"], free=(0, 1, 2), ws=(2,), simulate=(20000, 16))]),
     ]
@@ -241,7 +266,22 @@ def inline_jobs(ctx, invariants, ops, lite=False):
             nontrivial=has_ready)
 
 
+def impl_model_checking(ctx):
+    """the assembled transcription of the pipeline satisfies C01 - C04, C11 - C14 on GenLines documents (no code)"""
+    q = ctx.quick
+    from engine import DEFAULT_CFG
+    from vlib import base_consts
+    for (nm, g) in [("block", lines_gen(5 if q else 6, 2, 2, ["R", "P"], ws=(2,))),
+                    ("unwrap", lines_gen(6 if q else 7, 2, 2, ["Ru", "R", "P"], blank=False)),
+                    ("unwrap-one", lines_gen(7 if q else 8, 1, 1, ["Ru"], free=(1,), blank=True)),
+                    ("nested", lines_gen(9 if q else 11, 2, 2, ["Ru"], blank=False))]:
+        consts = dict(base_consts(dict(DEFAULT_CFG), [], "mc"))
+        consts.update(g["consts"])
+        ctx.mc("impl-" + nm, "MC_Impl", consts, ["ImplSatisfiesR"], constraint="Feasible")
+
+
 def check_C02(ctx):
+    impl_model_checking(ctx)
     block_jobs(ctx, ["Inv_C02"], [{"op": "clean"}])
     unwrap_jobs(ctx, ["Inv_C02"], [{"op": "clean"}])
     inline_jobs(ctx, ["Inv_C02"], [{"op": "clean"}])
@@ -288,8 +328,19 @@ def check_C15(ctx):
     inline_jobs(ctx, ["Inv_C15"], ops, lite=True)
 
 
+def tab_column_jobs(ctx, invariants, ops):
+    """marker columns: tabs and spaces mixed in front of a region, inline regions behind a tab"""
+    q = ctx.quick
+    gens = [lines_gen(4 if q else 6, 2, 2, ["R", "P", "Ru"], unit=" \t", base=1, blank=False),
+            lines_gen(4 if q else 5, 1, 1, ["R"], unit="\t ", base=2, blank=False)]
+    atoms = ["<rm name='a'>", "<rm name='b'>", "</rm>", "x;", "\t", " ", "\n"]
+    gens.append({"base": "GenAtoms", "consts": {"Atoms": [Chars(a) for a in atoms], "N": 5 if q else 6}})
+    ctx.job("tab-columns", gens=gens, invariants=invariants, ops=ops, cfg={"ds": "<", "de": ">"}, nontrivial=has_ready)
+
+
 def check_C16(ctx):
     ops = [{"op": "list_json"}, {"op": "list"}, {"op": "list_all_json"}, {"op": "list_all"}]
+    tab_column_jobs(ctx, ["Inv_C16"], [{"op": "list_json"}, {"op": "list_all_json"}])
     block_jobs(ctx, ["Inv_C16"], ops, lite=True)
     unwrap_jobs(ctx, ["Inv_C16"], ops, lite=True)
     inline_jobs(ctx, ["Inv_C16"], ops, lite=True)
@@ -299,7 +350,9 @@ def check_C17(ctx):
     ops = [{"op": "list_json"}, {"op": "list_all_json"}]
     block_jobs(ctx, ["Inv_C17"], ops, lite=True)
     unwrap_jobs(ctx, ["Inv_C17"], ops, lite=True)
-    ctx.job("pending-many", gens=[lines_gen(8 if ctx.quick else 11, 2, 4, ["R", "P"], blank=False)],
+    ctx.job("pending-many", gens=[lines_gen(8 if ctx.quick else 11, 2, 4, ["R", "P"], blank=False),
+                                  lines_gen(7 if ctx.quick else 9, 2, 3, ["Ru", "P", "Pu"], blank=False),
+                                  lines_gen(7 if ctx.quick else 9, 3, 3, ["S", "P", "R"], blank=False)],
             invariants=["Inv_C17"], ops=ops, cfg={"ds": "<", "de": ">"}, nontrivial=has_ready)
 
 
@@ -398,6 +451,8 @@ def parsed_attrs(b):
 def check_C09(ctx):
     q = ctx.quick
     ops = [{"op": "parse_tags"}, {"op": "clean"}]
+    ctx.mc("attr[<|>]", "MC_Attr", {"DS": Chars("<"), "DE": Chars(">"), "Alphabet": Chars(" \n='\"a/"), "N": 6 if q else 8},
+           ["ImplRefines"])
     ctx.job("tag-k1", gens=[{"base": "GenTag", "extra_inv": "RoundTrip", "consts": tag_consts(1, True)}],
             invariants=["Inv_C09"], ops=ops, cfg={"ds": "<", "de": ">"}, nontrivial=parsed_attrs)
     if q:
@@ -421,6 +476,7 @@ def has_pair(b):
 
 def check_C10(ctx):
     q = ctx.quick
+    ctx.mc("tree", "MC_Tree", {"NamesPool": [Chars(x) for x in ["a", "b", "/a", "/b", "/x"]], "N": 6 if q else 8}, ["ImplRefines"])
     for (ds, de) in [("<", ">")] + ([] if q else [("<!-- <", "> -->")]):
         atoms = [ds + "a" + de, ds + "b" + de, ds + "/a" + de, ds + "/b" + de, ds + "/x" + de, "t"]
         ctx.job("tokens[%s|%s]" % (ds, de),
@@ -466,13 +522,31 @@ def chains():
     return out
 
 
+def hist_model_checking(ctx):
+    """the managed file under periodic cleaning as a state machine over Layer I: every interleaving of clock /
+    target steps and runs (no code involved)"""
+    from engine import DEFAULT_CFG
+    from vlib import base_consts
+    q = ctx.quick
+    for (nm, g) in [("time", lines_gen(5 if q else 6, 2, 2, ["T1", "T2", "T3"], blank=False)),
+                    ("unwrap-later", lines_gen(6 if q else 7, 2, 2, ["T2u", "T1", "M1"], blank=True)),
+                    ("unwrap-first", lines_gen(6 if q else 7, 2, 2, ["T1u", "T2", "M2u"], blank=False))]:
+        consts = dict(base_consts(dict(DEFAULT_CFG, targets=[]), [], "mc"))
+        consts.update(g["consts"])
+        consts["Clocks"] = [[11474, 0], [11839, 0], [12204, 0]]
+        consts["TargetSteps"] = [[Chars("m1")], [Chars("m1"), Chars("m2")], [Chars("m1"), Chars("m2"), Chars("m3")]]
+        ctx.mc("hist-" + nm, "MC_Hist", consts, ["Idempotent", "Composes", "Monotone", "NoCrash"], constraint="Feasible",
+               init="HInit", nxt="HNext")
+
+
 def check_C19(ctx):
     q = ctx.quick
+    hist_model_checking(ctx)
     cfg = {"ds": "<", "de": ">", "targets": []}
     sets = [
         ("hist-time", lines_gen(6 if q else 8, 2, 2 if q else 3, ["T1", "T2", "T3"], blank=False)),
-        ("hist-unwrap", lines_gen(8 if q else 9, 2, 2, ["T1u", "T2", "T3u"] if q else ["T1u", "T2u", "T1", "T2", "T3"], blank=False)),
-        ("hist-marker", lines_gen(7 if q else 8, 2, 2, ["M1", "M2u", "M3"], blank=True)),
+        ("hist-unwrap", lines_gen(7 if q else 9, 2, 2, ["T1u", "T2", "T3u"] if q else ["T1u", "T2u", "T1", "T2", "T3"], blank=False)),
+        ("hist-marker", lines_gen(6 if q else 8, 2, 2, ["M1", "M2u", "M3"], blank=True)),
     ]
     for (name, g) in sets:
         g["base"] = "GenHist"
@@ -519,3 +593,25 @@ CHECKS = {"C01": check_C01, "C02": check_C02, "C03": check_C03, "C04": check_C04
           "C17": check_C17, "C05": check_C05, "C06": check_C06, "C09": check_C09, "C10": check_C10, "C18": check_C18,
           "C19": check_C19, "C20": check_C20}
 NEEDS_CLI = {"C05", "C06", "C20", "C01"}
+
+
+RULES = {
+    "C01": "behaviours = document x configuration x five entry points; non-trivial = the tokenizer found at least one tag token / something was removed or listed; distinct by (source, configuration, operations)",
+    "C02": "behaviours = one clean per generated document; non-trivial = the result differs from the source (something was removed); distinct by (source, configuration)",
+    "C03": "as C02",
+    "C04": "behaviours = one clean per generated document; every behaviour counts (identity must hold whenever the reference finds nothing ready; the TLA+ predicate decides the antecedent); distinct by (source, configuration)",
+    "C05": "behaviours = one (to, offset) pair stepped through the clock grid; non-trivial = the evaluator answered both ready and not ready along the grid (the boundary was crossed)",
+    "C06": "behaviours = one target set with an evaluator call per pool name and a clean of the probe document; non-trivial = both verdicts occur",
+    "C07": "behaviours = one tokenization per string; non-trivial = at least two tokens",
+    "C08": "behaviours = one tokenization per string; non-trivial = at least one tag token",
+    "C09": "behaviours = parse + clean of one rendered tag; non-trivial = the tag has at least one attribute",
+    "C10": "behaviours = one tree per token sequence; non-trivial = at least one element (pair) in the tree",
+    "C11": "as C02 on unwrap documents", "C12": "as C02 on unwrap documents", "C13": "as C02 on block documents",
+    "C14": "as C02",
+    "C15": "behaviours = clean + list (JSON, pretty, JSON again) per document; non-trivial = at least one item / something removed",
+    "C16": "behaviours = list and list_all in both formats per document; non-trivial = at least one item",
+    "C17": "behaviours = list + list_all (JSON) per document; non-trivial = at least one item",
+    "C18": "behaviours = clean + list under a base spelling, respelling, clean + list again; non-trivial = something was removed",
+    "C19": "behaviours = one document x one configuration chain (at-once clean, then commit + clean per step); non-trivial = something was removed",
+    "C20": "behaviours = one library call + one process run per option record; every behaviour counts",
+}
